@@ -69,6 +69,14 @@ func (o Op) short() string {
 		return fmt.Sprintf("query%v", o.Q)
 	case "batch":
 		return fmt.Sprintf("batch%v", o.B)
+	case "popen", "pgetcfg":
+		return fmt.Sprintf("%s(st%d)", o.Kind, o.U)
+	case "psetcfg":
+		return fmt.Sprintf("psetcfg(st%d,%v)", o.U, o.Ks)
+	case "pput":
+		return fmt.Sprintf("pput(st%d via h%d,%d,%d)", o.U, o.ID, o.K, o.V)
+	case "pget":
+		return fmt.Sprintf("pget(st%d via h%d,%d)", o.U, o.ID, o.K)
 	case "create":
 		return "create"
 	case "import":
@@ -94,7 +102,7 @@ func (o Out) short() string {
 		return fmt.Sprintf("%s %d", o.Kind, o.V)
 	case "tags":
 		return fmt.Sprintf("tags%v", o.T)
-	case "bulk", "batch", "batchfail", "served":
+	case "bulk", "batch", "batchfail", "served", "cfg", "open":
 		return fmt.Sprintf("%s%v", o.Kind, o.Vs)
 	case "query":
 		return fmt.Sprintf("query%v", o.R)
